@@ -280,6 +280,16 @@ class FSA:
                 if ignore_redundant and l in self._out_dict[tail][head]:
                     continue
 
+                # a vertex has at most one outgoing edge with a given
+                # label: the new edge replaces the old one in all views
+                old_head = self._graph_dict[tail].get(l, head)
+                if old_head != head:
+                    self._out_dict[tail][old_head].remove(l)
+                    self._in_dict[old_head][tail].remove(l)
+                    if len(self._out_dict[tail][old_head]) == 0:
+                        self._out_dict[tail].pop(old_head)
+                        self._in_dict[old_head].pop(tail)
+
                 self._out_dict[tail][head].append(l)
                 self._in_dict[head][tail].append(l)
                 self._graph_dict[tail][l] = head
